@@ -50,7 +50,9 @@ META = {
         "R4 state: every piece of renderer/document/env state changed around a nested render is put back to the value saved "
         "before it - in the context manager entered around _render_tokens (closure or method; followed through helpers) and in "
         "the try/finally of the include mock (in run() itself or in a context manager it enters; restore by assignment of the "
-        "saved local, by swapping the mapping back, or by update() from a snapshot); the in-progress markers of the "
+        "saved local, by swapping the mapping back, or by update() from a snapshot); an option-driven env setting of the include "
+        "(relative-images, relative-docs) is overridden only on the path where the include carries that option - otherwise the "
+        "value set by the enclosing include is kept; the in-progress markers of the "
         "re-entrant renders (include stack, substitution reference set) are removed on every return/exception path after their "
         "insertion, and their keys are not computed relative to state that the same code swaps for the nested render, nor "
         "reduced to a file name. "
@@ -76,7 +78,9 @@ META = {
         "transformations hidden in helpers more than two calls deep or in third-party directives, slicing that drops characters (it cannot be "
         "told from the start/end options of include), lossy marker keys other than relpath/relative_to/basename/.name/.stem, "
         "exceptions raised by statements outside a try (the CFG has exception edges only inside try bodies), `{eval-rst}` being "
-        "dispatched by the back-tick fence only (its body is rST, outside the property's wrappers)."
+        "dispatched by the back-tick fence only (its body is rST, outside the property's wrappers). Whether an option block is "
+        "looked for at all (truthiness vs None test of option_spec) belongs to the directive-text split and is decided by C08.R4, "
+        "not here."
     ),
     "trusted_base": [
         "CPython ast",
@@ -1276,7 +1280,7 @@ def r4_state_restored(corpus: Corpus, rep: Report, tier: str):
 
     _r4_markers(corpus, rep)
     _r4_include(corpus, rep)
-    rep.expect_min("C06.R4", 10, "three _restore pairs, the with-block, five swaps in the include mock, marker removal/key frame for include and substitution")
+    rep.expect_min("C06.R4", 12, "three _restore pairs, the with-block, five swaps in the include mock, marker removal/key frame for include and substitution")
 
 
 def _r4_restore_pairs(rep: Report, rs: FunctionInfo) -> None:
@@ -1425,6 +1429,90 @@ def _r4_include(corpus: Corpus, rep: Report) -> None:
                 rep.violation("C06.R4", k, site, f"{key} is changed for the included file and not restored in finally: everything after the include is rendered with the included file's value")
     if n_w < 3:
         rep.error("C06.R4", f"include mock: expected the source/reporter/md_env swaps inside the try, found {n_w} store(s)")
+
+    # option-driven settings: an include that does not carry the option keeps what the enclosing include set
+    def mentions_options(e: ast.AST) -> bool:
+        return any(isinstance(x, ast.Attribute) and x.attr == "options" for x in ast.walk(e)) or any(
+            isinstance(x, ast.Name) and any(isinstance(y, ast.Attribute) and y.attr == "options" for _, v in _local_defs(owner, x.id) for y in ast.walk(v)) for x in ast.walk(e)
+        )
+
+    option_keys = set()
+    for f_ in {owner.fq: owner, inc.fq: inc}.values():
+        for n in f_.local_nodes():
+            if isinstance(n, ast.Compare) and isinstance(n.left, ast.Constant) and isinstance(n.left.value, str) and any(isinstance(o, (ast.In, ast.NotIn)) for o in n.ops) and any(mentions_options(c) for c in n.comparators):
+                option_keys.add(n.left.value)
+            if isinstance(n, ast.Subscript) and isinstance(n.ctx, ast.Load) and isinstance(n.slice, ast.Constant) and isinstance(n.slice.value, str) and isinstance(n.value, ast.Attribute) and n.value.attr == "options":
+                option_keys.add(n.slice.value)
+            if isinstance(n, ast.Call) and isinstance(n.func, ast.Attribute) and n.func.attr == "get" and isinstance(n.func.value, ast.Attribute) and n.func.value.attr == "options" and n.args and isinstance(n.args[0], ast.Constant):
+                option_keys.add(n.args[0].value)
+    n_opt = 0
+    for a in body_assigns:
+        for t in a.targets:
+            key = _state_key(t)
+            if key is None or not (isinstance(t, ast.Subscript) and isinstance(t.slice, ast.Constant) and t.slice.value in option_keys):
+                continue
+            n_opt += 1
+            optname = t.slice.value
+            k = f"{inc.fq}|{key} overridden only when the include carries :{optname}:"
+            site = owner.module.site(a)
+            # locals holding the value the key had before this include
+            saved = {nm for nm in {n_.id for n_ in owner.local_nodes() if isinstance(n_, ast.Name)} if len(_local_defs(owner, nm)) == 1 and _state_key(_local_defs(owner, nm)[0][1]) == key}
+            keeps = lambda e: e is not None and any(isinstance(x, ast.Name) and x.id in saved for x in ast.walk(e))
+            def about(e: ast.AST, optname=optname) -> bool:
+                """The expression talks about this option: options + the option's name (directly or through a local)."""
+                if not mentions_options(e):
+                    return False
+                if any(isinstance(x, ast.Constant) and x.value == optname for x in ast.walk(e)):
+                    return True
+                return any(isinstance(x, ast.Name) and any(isinstance(y, ast.Constant) and y.value == optname for _, v in _local_defs(owner, x.id) for y in ast.walk(v)) for x in ast.walk(e))
+
+            gs = [(t_, pol) for t_, pol in icfg.guards(icfg.stmt_of(a)) if about(t_)]
+
+            def polarity(test: ast.AST, pol: bool) -> bool | None:
+                """True if the fact says the option is present, False if absent, None if unclear."""
+                if isinstance(test, ast.Compare) and len(test.ops) == 1 and isinstance(test.ops[0], (ast.In, ast.NotIn)):
+                    return pol if isinstance(test.ops[0], ast.In) else not pol
+                if isinstance(test, ast.Compare) and len(test.ops) == 1 and isinstance(test.ops[0], (ast.Is, ast.IsNot)) and isinstance(test.comparators[0], ast.Constant) and test.comparators[0].value is None:
+                    return (not pol) if isinstance(test.ops[0], ast.Is) else pol
+                if isinstance(test, (ast.Call, ast.Subscript, ast.Attribute, ast.Name)):
+                    return pol  # truthiness of options.get(K) / a local bound from it
+                return None
+
+            pols = [polarity(t_, pol) for t_, pol in gs]
+            val = a.value
+            verdict = None
+            if any(p_ is True for p_ in pols):
+                verdict = (True, "stored under a test that the option is given")
+            elif any(p_ is False for p_ in pols):
+                verdict = (keeps(val), "stored on the path where the option is absent")
+            elif gs:
+                rep.error("C06.R4", f"{site}: cannot tell whether `{short(a, 60)}` runs when :{optname}: is given or absent (guards: {', '.join(short(t_, 30) for t_, _ in gs)})")
+                continue
+            elif isinstance(val, ast.IfExp) and about(val.test):
+                from ..flow import facts as _facts
+
+                fs = [polarity(t_, pol) for t_, pol in _facts(val.test, True) if about(t_)]
+                if any(p_ is True for p_ in fs):
+                    verdict = (keeps(val.orelse), f"falls back to `{short(val.orelse, 30)}` when the option is absent")
+                elif any(p_ is False for p_ in fs):
+                    verdict = (keeps(val.body), f"uses `{short(val.body, 30)}` when the option is absent")
+                else:
+                    rep.error("C06.R4", f"{site}: conditional value of `{short(a, 60)}` not understood")
+                    continue
+            else:
+                verdict = (keeps(val), "stored for every include, whether or not it carries the option")
+            if verdict[0]:
+                rep.ok("C06.R4", k, site, verdict[1])
+            else:
+                rep.violation(
+                    "C06.R4",
+                    k,
+                    site,
+                    f"`{short(a, 70)}`: {verdict[1]}, and the value written then is not the one the enclosing include had set: an include without :{optname}: inside a file "
+                    f"that is itself included with :{optname}: switches the setting off for the inner file, so its nodes differ from the same text written in place in the outer file",
+                )
+    if n_opt < 2:
+        rep.error("C06.R4", f"include mock: expected the option-driven md_env settings (relative-images, relative-docs), found {n_opt}")
 
 
 MARKER_INSERTS = {"add", "update", "append", "extend", "insert", "appendleft"}
@@ -2548,6 +2636,27 @@ def mutants(corpus: Corpus):
             'active = self.md.get_active_rules()\n' + _indent(base, st) + 'if "substitution_inline" not in active["block"]:\n' + _indent(base, st) + "    inline = False\n" + _indent(base, st) + _seg(base, st),
             "substitution_inline",
         )
+
+    # class: an include without the option overwrites the setting inherited from the enclosing include
+    if tr is not None:
+        body_stores = {}
+        for n in (x for b_ in tr.body for x in ast.walk(b_)):
+            if isinstance(n, ast.Assign) and isinstance(n.targets[0], ast.Subscript) and unparse(n.targets[0].value).endswith("md_env") and isinstance(n.targets[0].slice, ast.Constant):
+                body_stores[n.targets[0].slice.value] = n
+        a = body_stores.get("relative-images")
+        g_ = next((x for b_ in tr.body for x in ast.walk(b_) if isinstance(x, ast.If) and a is not None and a in x.body), None)
+        if a is not None and g_ is not None:
+            add("c06-include-resets-relative-images-when-option-absent", "C06.R4", mk, g_, f"{_seg(mk, a.targets[0])} = ({_seg(mk, a.value)} if {_seg(mk, g_.test)} else None)", "overridden only when the include carries :relative-images:")
+            add("c06-include-clears-relative-images-in-else", "C06.R4", mk, g_, _seg(mk, g_) + "\n" + _indent(mk, g_) + "else:\n" + _indent(mk, g_) + f'    {_seg(mk, a.targets[0])} = ""', "overridden only when the include carries :relative-images:")
+        else:
+            out.append(("c06-include-resets-relative-images-when-option-absent", "guarded relative-images store not found"))
+        a = body_stores.get("relative-docs")
+        g_ = next((x for b_ in tr.body for x in ast.walk(b_) if isinstance(x, ast.If) and a is not None and a in x.body), None)
+        if a is not None and g_ is not None and isinstance(a.value, ast.Tuple):
+            new_val = _seg(mk, a.value).replace('self.options["relative-docs"]', 'self.options.get("relative-docs")')
+            add("c06-include-stores-relative-docs-unconditionally", "C06.R4", mk, g_, f"{_seg(mk, a.targets[0])} = {new_val}", "overridden only when the include carries :relative-docs:")
+        else:
+            out.append(("c06-include-stores-relative-docs-unconditionally", "guarded relative-docs store not found"))
 
     # ---- R5
     run = base.func(R + "run_directive")
